@@ -140,7 +140,18 @@ def check(uid, tier, seed=0, only=None, keep=False):
         # only proof scaffolding failed (loop invariants / variants / loop frames) and no postcondition: the loop contracts may
         # simply not fit a restructured loop any more.  A bounded search for a postcondition counterexample decides what is
         # reported: found -> VIOLATION (named postcondition); not found -> UNDECIDED, not an alarm.
-        scaffold = lambda o: re.search(r'loop_invariant_(base|step)|loop_decreases|loop_assigns|loop_step_unwinding', o['name'] or '') is not None
+        fn_locals = set()
+        for f_ in unit.get('functions', []):
+            if f_.get('cname') == p.enforce:
+                fn_locals = set(f_.get('locals', []))
+
+        def scaffold(o):
+            if re.search(r'loop_invariant_(base|step)|loop_decreases|loop_assigns|loop_step_unwinding', o['name'] or ''):
+                return True
+            # a LOCAL of the function under contract missing from a loop's assigns clause (e.g. a temporary hoisted out of
+            # the loop by a refactoring) is scaffolding too; a write to a parameter's pointee, a member or ghost state is not
+            m = re.match(r'Check that ([A-Za-z_]\w*)(\W.*)? is assignable', o.get('description') or '')
+            return bool(m and re.search(r'\.assigns\.\d+$', o['name'] or '') and m.group(1) in fn_locals)
         if failed and p.loop_contracts and not getattr(p, 'finding', None) and all(scaffold(o) for o in failed) and p.id not in fallback:
             import copy
             q = copy.copy(p)
